@@ -318,6 +318,9 @@ func (i *yamlInputIter) Next() (any, bool) {
 	if buf := i.ir.buf; buf != nil && buf.Len() >= 16*1024 {
 		// discard what precedes the document, errors are reported after it
 		b, m := buf.Bytes(), 0
+		if i.index == 0 && bytes.HasPrefix(b, []byte("\ufeff")) {
+			i.index-- // the parser does not count a byte order mark
+		}
 		for ; i.index < n.Index && m < len(b); i.index++ {
 			_, size := utf8.DecodeRune(b[m:])
 			m += size
